@@ -76,6 +76,11 @@ def main(argv=None):
     tasks = P.tasks(a.tier, seed)
     if a.only:
         tasks = [t for t in tasks if a.only in t["id"]]
+        if not os.environ.get("VERIF_OUT"):
+            # a partial run (maintenance) must not overwrite the evidence / replay files of the registered full check
+            import tempfile
+            common.OUT = tempfile.mkdtemp(prefix="vf_only_")
+            print(f"[--only] evidence and replay files of this partial run go to {common.OUT}")
     if a.list:
         for t in tasks:
             print(t["id"], t["kind"])
